@@ -11,6 +11,8 @@
 -/
 import SimVerif.Pcap
 import SimVerif.PcapDecode
+import SimVerif.Lemmas.PcapSites
+import SimVerif.TcpEx
 
 namespace SimVerif.Pcap
 open SimVerif.PcapDecode
@@ -68,7 +70,7 @@ theorem tsUsec_lt (t : Nat) : tsUsec t < 4294967296 := by unfold tsUsec; omega
 
 /-- A record header announcing `size` followed by a packet of exactly that many bytes
     (`size ≤ snaplen`, `size < 2^32`) decodes to that packet and leaves the rest. -/
-theorem decodeRec_recHdr (snap t size : Nat) (pkt rest : List UInt8) (p : Pkt)
+theorem decodeRec_recHdr (snap t size : Nat) (pkt rest : List UInt8) (p : PcapDecode.Pkt)
     (hlen : pkt.length = size) (hsz : size < 4294967296) (hsnap : size ≤ snap)
     (hp : parsePkt pkt = some p) :
     decodeRec snap (recHdr t size ++ (pkt ++ rest)) =
@@ -161,7 +163,7 @@ theorem decodeRec_emit (c : Ctrs) (s : Send) (h : SendOk s) (rest : List UInt8) 
       (by omega) (by omega) (parsePkt_tcp ..)]
     simp only [expRec, hk, tsSec_spec, tsUsec_spec s.t]
     congr 3
-    simp only [Pkt.mk.injEq, and_true, true_and]
+    simp only [PcapDecode.Pkt.mk.injEq, and_true, true_and]
     refine ⟨?_, ?_, ?_, ?_, ?_⟩ <;> omega
   | udp =>
     have hsz := h7 hk
@@ -170,7 +172,7 @@ theorem decodeRec_emit (c : Ctrs) (s : Send) (h : SendOk s) (rest : List UInt8) 
       (by omega) (by omega) (parsePkt_udp ..)]
     simp only [expRec, hk, tsSec_spec, tsUsec_spec s.t]
     congr 3
-    simp only [Pkt.mk.injEq, and_true, true_and]
+    simp only [PcapDecode.Pkt.mk.injEq, and_true, true_and]
     refine ⟨?_, ?_, ?_, ?_, ?_, ?_⟩ <;> omega
 
 theorem emit_ne_nil (c : Ctrs) (s : Send) : (emit c s).1 ≠ [] := by
@@ -543,3 +545,454 @@ example : ∀ s ∈ exSends, SendOk s := by
 example : fileHeader.length = 24 ∧ decodeFile (capture zeroInit []) = some [] := by decide
 
 end SimVerif.Pcap
+
+/-! # Which sends reach the capture: the socket models' capture sites
+
+  Above, the capture is a function of a list of *sends*. Below: that the mechanism models of
+  the sockets (SimVerif/Tcp.lean, SimVerif/Net.lean) emit exactly one capture record
+  (`NEff.pcapTcp` / `NEff.pcapUdp`; the world driver turns it into `Pcap.recordTcp/recordUdp`
+  bytes, Drv/Kernel.lean) per packet they put on the wire through `send_packet` / `send_to`,
+  with the right fields — function by function, and then over every history of the open
+  stream system `TS` (SimVerif/StreamSys.lean).
+
+  Captured in the C++ (`log_tcp` is called only in `tcp::socket::send_packet`,
+  tcp_socket.cpp:762-779; `log_udp` only in `udp::socket::send_to_impl`, udp_socket.cpp:474):
+    * payload segments (`write_some_impl`, tcp_socket.cpp:543),
+    * retransmissions (the ACK path's loop, tcp_socket.cpp:854),
+    * the end-of-stream marker of `close()` (tcp_socket.cpp:225),
+    * UDP datagrams that are actually forwarded.
+  NOT captured (they go through `forward_packet` directly): SYN (simulation.cpp:338), SYN-ACK
+  (acceptor.cpp:359), the RST of a closed acceptor's queue (acceptor.cpp:301), ACKs
+  (tcp_socket.cpp:900). The model does the same: those are bare `.forward` effects of
+  `internalConnect`, `accCheckQueue`, `tcpIncoming`.
+  Record fields, C++ vs model: time = `now` of the call; source address = `m_bound_to`
+  (= `s.bound`); source port = `p.from.port()` in the C++, `s.bound.port` in the model — equal,
+  because `from` is set from `m_bound_to` when the packet is built and a NAT hop rewrites only
+  its address (nat.cpp:33); destination = `m_channel->ep[remote]`, the peer's REAL endpoint as
+  stored in the channel, not `visible_ep` (= `ch.ep (ch.remoteIdx s.bound)`); sequence number =
+  `p.byte_counter` = `bytes_sent[self_idx]` BEFORE this send; the counter then grows by the
+  payload size in `uint32` arithmetic, for every transmission — a retransmitted segment gets a
+  NEW, larger sequence number and its bytes count again. -/
+
+namespace SimVerif
+
+/-! ## 1. TCP, function level -/
+
+/-- **`send_packet(p)` on a connected socket** (every state, every packet). The effect list is
+    exactly: the capture record iff capturing, immediately followed by the forward of `p`
+    stamped with the byte counter. Record: `t = now`, `src = s.bound`, `dst` = the peer's
+    channel endpoint, `seq` = the direction's byte counter before the send, `payload` = the
+    packet's. The direction's counter grows by the payload length (mod 2^32); the other
+    direction's counter and the channel's endpoints are untouched. With `pcap = false` the same
+    forward, no record. -/
+theorem C19_tcp_send_packet (n : NetSt) (now : Int) (name : String) (p : Pkt) (s : TcpSock) (cid : Nat) (ch : Chan)
+    (hs : n.tcp? name = some s) (hc : s.chan = some cid) (hch : n.chan? cid = some ch) :
+    (n.tcpSendPacket now name p).2 =
+      (if n.cfg.pcap then [NEff.pcapTcp now s.bound (ch.ep (ch.remoteIdx s.bound))
+                            (ch.sent (ch.selfIdx s.bound)) p.payload] else [])
+        ++ [.forward { p with bc := ch.sent (ch.selfIdx s.bound) }]
+    ∧ ∃ ch', (n.tcpSendPacket now name p).1.chan? cid = some ch'
+        ∧ ch'.sent (ch.selfIdx s.bound) = (ch.sent (ch.selfIdx s.bound) + p.payload.length) % 4294967296
+        ∧ ch'.sent (1 - ch.selfIdx s.bound) = ch.sent (1 - ch.selfIdx s.bound)
+        ∧ ch'.ep0 = ch.ep0 ∧ ch'.ep1 = ch.ep1 := by
+  rw [tcpSendPacket_conn n now name p s cid ch hs hc hch]
+  refine ⟨rfl, ch.bump (ch.selfIdx s.bound) p.payload.length, ?_, Chan.bump_sent_same _ _ _, ?_,
+    Chan.bump_ep0 _ _ _, Chan.bump_ep1 _ _ _⟩
+  · show (n.setChan cid (ch.bump (ch.selfIdx s.bound) p.payload.length)).chan? cid = _
+    unfold NetSt.chan? NetSt.setChan
+    unfold NetSt.chan? at hch
+    simp [List.getElem?_mapIdx, hch]
+  · rcases Chan.selfIdx_le ch s.bound with h | h <;> rw [h] <;>
+      exact Chan.bump_sent_other _ _ _ _ (by simp) (by simp) (by simp)
+
+/-- … and without a socket object, a channel, or with a dangling channel id `send_packet` does
+    nothing at all: no record, no packet (in the C++ a null `m_channel` here is a crash,
+    Props/C12) -/
+theorem C19_tcp_send_packet_detached (n : NetSt) (now : Int) (name : String) (p : Pkt)
+    (h : ((n.tcp? name).bind (·.chan)).bind n.chan? = none) : n.tcpSendPacket now name p = (n, []) :=
+  tcpSendPacket_detached n now name p h
+
+/-- **Payload segments** (`write_some_impl`'s loop body): one record right before the one
+    packet, whose payload is the segment. -/
+theorem C19_tcp_segment (n : NetSt) (now : Int) (name : String) (hops : List String) (seg : List UInt8)
+    (s : TcpSock) (cid : Nat) (ch : Chan)
+    (hs : n.tcp? name = some s) (hc : s.chan = some cid) (hch : n.chan? cid = some ch) :
+    (n.tcpSendSeg now name hops seg).2 =
+      (if n.cfg.pcap then [NEff.pcapTcp now s.bound (ch.ep (ch.remoteIdx s.bound))
+                            (ch.sent (ch.selfIdx s.bound)) seg] else [])
+        ++ [.forward { id := s.nextOut, ty := .payload, len := seg.length, ovh := 40, hops := hops,
+                       src := s.bound.toString, payload := seg, hasDrop := true, dropFwd := s.fwd,
+                       bc := ch.sent (ch.selfIdx s.bound) }] := by
+  rw [tcpSendSeg_eq n now name hops seg s hs,
+    tcpSendPacket_conn (n.setTcp name { s with nextOut := s.nextOut + 1 }) now name (segPkt s hops seg)
+      { s with nextOut := s.nextOut + 1 } cid ch (tcp?_setTcp_same _ _ _) hc hch]
+  rfl
+
+/-- **Retransmissions** (the ACK path's loop): when the head of the retransmission list is
+    sent, one record right before the one packet; the record carries the CURRENT byte counter
+    (not the one of the first transmission) and the packet's bytes. -/
+theorem C19_tcp_retransmission (n : NetSt) (now : Int) (name : String) (s : TcpSock) (cid : Nat) (ch : Chan)
+    (r : NetSt × List NEff)
+    (hs : n.tcp? name = some s) (hc : s.chan = some cid) (hch : n.chan? cid = some ch)
+    (h : n.tcpResendOne now name = some r) :
+    ∃ p rest, s.resend = p :: rest ∧
+      r.2 = (if n.cfg.pcap then [NEff.pcapTcp now s.bound (ch.ep (ch.remoteIdx s.bound))
+                                  (ch.sent (ch.selfIdx s.bound)) p.payload] else [])
+              ++ [.forward { p with bc := ch.sent (ch.selfIdx s.bound) }] := by
+  rw [tcpResendOne_eq n now name s hs] at h
+  split at h
+  · cases h
+  · rename_i p rest hr
+    split at h
+    · cases h
+    · split at h
+      · cases h
+        refine ⟨p, rest, hr, ?_⟩
+        rw [tcpSendPacket_conn (n.setTcp name { s with resend := rest }) now name p
+          { s with resend := rest } cid ch (tcp?_setTcp_same _ _ _) hc hch]
+        rfl
+      · cases h
+
+/-- **The closing segment** (`close()` on an established connection): the end-of-stream marker
+    goes through `send_packet`, so: one record with an empty payload right before it, then
+    only completions (the aborted operations). No route / connect still pending: nothing. -/
+theorem C19_tcp_close (n : NetSt) (now : Int) (name : String) (s : TcpSock) (cid : Nat) (ch : Chan)
+    (hs : n.tcp? name = some s) (hc : s.chan = some cid) (hch : n.chan? cid = some ch) :
+    ∃ e1, capsTcp e1 = [] ∧ capsUdp e1 = [] ∧ s5_fwdsOf e1 = [] ∧
+      (n.tcpClose now name).2 =
+        (if !(ch.hops (ch.remoteIdx s.bound)).isEmpty && s.connectH.isNone then
+          (if n.cfg.pcap then [NEff.pcapTcp now s.bound (ch.ep (ch.remoteIdx s.bound))
+                                (ch.sent (ch.selfIdx s.bound)) []] else [])
+            ++ [.forward { id := s.nextOut, ty := .err, ec := .eof, len := 0, ovh := 40,
+                           hops := ch.hops (ch.remoteIdx s.bound), src := s.bound.toString,
+                           bc := ch.sent (ch.selfIdx s.bound) }]
+         else []) ++ e1 := by
+  rw [tcpClose_eq n now name s hs]
+  obtain ⟨⟨s1, hs1⟩, _⟩ := closeHead_spec n now name s hs
+  obtain ⟨n2, s', e1, he, hq, _⟩ := closeTail_eq (closeHead n now name s).1 name (closeHead n now name s).2 s1 hs1
+  refine ⟨e1, hq.1, hq.2.1, hq.2.2, ?_⟩
+  rw [he, closeHead_eq n now name s cid ch hc hch]
+  dsimp only
+  congr 1
+  split
+  · rw [tcpSendPacket_conn (n.setTcp name { s with nextOut := s.nextOut + 1 }) now name
+      (eofPkt s (ch.hops (ch.remoteIdx s.bound))) { s with nextOut := s.nextOut + 1 } cid ch
+      (tcp?_setTcp_same _ _ _) hc hch]
+    rfl
+  · rfl
+
+/-- **Not captured**: `incoming_packet` (whatever arrives, in whatever state) emits no record —
+    its ACKs go out through `forward_packet` directly —, nor do the reader's API functions and
+    the rest of the writer's. -/
+theorem C19_tcp_not_captured (tp : TParams) (n : NetSt) (now : Int) (name : String) :
+    (∀ p, capsTcp (n.tcpIncoming tp now name p).2 = [])
+    ∧ (∀ op, capsTcp (n.tcpAsyncRead name op).2 = [])
+    ∧ (∀ h, capsTcp (n.tcpWaitRead name h).2 = [])
+    ∧ (∀ op, capsTcp (n.tcpAsyncWrite name op).2 = [])
+    ∧ (∀ op r, capsTcp (n.tcpWriteFinish name op r).2 = [])
+    ∧ (∀ target, capsTcp (n.internalConnect name target).2.1 = []) := by
+  refine ⟨fun p => (noCap_tcpIncoming tp n now name p).1, fun op => (noCap_tcpAsyncRead n name op).1,
+    fun h => (noCap_tcpWaitRead n name h).1, fun op => (noCap_tcpAsyncWrite n name op).1.1,
+    fun op r => (quiet_tcpWriteFinish n name op r).1, ?_⟩
+  intro target
+  unfold NetSt.internalConnect
+  repeat' split
+  all_goals rfl
+
+/-! ## 2. UDP, function level -/
+
+/-- **`send_to`** (every state, every argument): either nothing is forwarded and nothing is
+    captured (no such socket, failed implicit bind, empty datagram, more than 65535 bytes,
+    don't-fragment above the path MTU, pacing queue full, nothing bound at the destination —
+    the rows of `C08_send_errors`), or the effect list is: completions/timer effects of
+    `abort_send_handlers()` (`e0`: no record, no packet), then the capture record iff capturing,
+    immediately followed by the forward of the one datagram. Record: `t = now`, `src` = the
+    sender's bound endpoint (after the implicit bind), `dst` = the destination the caller gave
+    (UDP has no channel: the C++ logs `dst` as passed), `payload` = the caller's bytes = the
+    packet's payload; the packet's source is the same endpoint. -/
+theorem C19_udp_send_to (n : NetSt) (now : Int) (name : String) (dst : Ep) (payload : List UInt8) :
+    (fwdsOf (n.udpSendTo now name dst payload).2.1 = [] ∧ capsUdp (n.udpSendTo now name dst payload).2.1 = []
+      ∧ capsTcp (n.udpSendTo now name dst payload).2.1 = [])
+    ∨ ∃ (u : UdpSock) (hops : List String) (e0 : List NEff),
+        fwdsOf e0 = [] ∧ capsUdp e0 = [] ∧ capsTcp e0 = []
+        ∧ (n.udpSendTo now name dst payload).2.1 =
+            e0 ++ (if n.cfg.pcap then [NEff.pcapUdp now u.bound dst payload] else [])
+               ++ [.forward (sendPkt u.bound hops payload)]
+        ∧ (sendPkt u.bound hops payload).payload = payload
+        ∧ (sendPkt u.bound hops payload).src = u.bound.toString
+        ∧ 0 < payload.length ∧ payload.length ≤ 65535
+        ∧ (n.udpSendTo now name dst payload).2.2 = (.ok, payload.length) := by
+  have hab : ∀ u0 : UdpSock, fwdsOf (u0.abortSend name).2 = [] ∧ capsUdp (u0.abortSend name).2 = []
+      ∧ capsTcp (u0.abortSend name).2 = [] := by
+    intro u0; unfold UdpSock.abortSend; cases u0.waitSendH <;> exact ⟨rfl, rfl, rfl⟩
+  cases hu : n.udp? name with
+  | none => left; rw [udpSendTo_none n now name dst payload hu]; exact ⟨rfl, rfl, rfl⟩
+  | some u0 =>
+    rw [udpSendTo_eq n now name dst payload u0 hu]
+    have hcfg : (if u0.bound.isDefault then (n.setUdp name { u0 with waitSendH := none }).udpBind name {}
+          else (n.setUdp name { u0 with waitSendH := none }, Ec.ok)).1.cfg = n.cfg := by
+      split
+      · exact (udpBind_ctlStep _ name {}).cfg
+      · rfl
+    generalize (if u0.bound.isDefault then (n.setUdp name { u0 with waitSendH := none }).udpBind name {}
+          else (n.setUdp name { u0 with waitSendH := none }, Ec.ok)) = rb at hcfg ⊢
+    rcases udpSendTail_total rb.1 (u0.abortSend name).2 rb.2 now name dst payload
+      with ⟨e, _⟩ | ⟨u, hops, hu1, _, h0, h1, hr, e⟩
+    · left; rw [e]; exact hab u0
+    · right
+      refine ⟨u, hops, (u0.abortSend name).2, (hab u0).1, (hab u0).2.1, (hab u0).2.2, ?_, rfl, rfl, h0, h1, ?_⟩
+      · rw [e, hcfg]
+      · rw [e]
+
+/-! ## 3. System level: every history of the open stream system
+
+  `TS` (SimVerif/StreamSys.lean; one direction of one established connection, adversarial
+  network: any delay, reordering, drops with retransmission, any API interleaving) discards the
+  capture effects. `CS` (SimVerif/Lemmas/PcapSites.lean) wraps it WITHOUT changing it
+  (`C19_stream_same_system`): `CS.step` runs `TS.step` and appends to two ghost logs —
+  `log`: the `pcapTcp` effects of all effect lists of the step, in emission order (the capture
+  log), `wire`: the packets forwarded by the writer's functions in that step, with the step's
+  time. The effect lists are re-collected by `TS.effs = TS.effsA ++ TS.effsB`, which follow
+  `TS.step` case by case and call the same mechanism functions on the same states;
+  `C19_stream_effects_are_the_steps` ties them to what `TS.step` does: the bag grows by exactly
+  their forwards (so `wire` is exactly what the writer put into the bag, in order) and the
+  completion log by exactly their completions.
+
+  Start state: ANY network state `n` in which the writer is connected (`ConnAt`: it holds an
+  existing channel `k.cid`, is bound to `k.src`, sits at index `k.idx`, the peer's channel
+  endpoint is `k.dst`, its direction's byte counter is `k.init`) and the capture switch is
+  `k.pcap`. `k.init` is arbitrary: 0 is the repaired tree (`bytes_sent{0,0}`), any other value
+  the pinned tree's uninitialised counter (F1). -/
+
+theorem C19_stream_same_system (c : TcpCfg) (n : NetSt) (ls : List TLbl) :
+    (CS.run c (CS.init c n) ls).ts = TS.run c (TS.init c n) ls := CS.init_run_ts c n ls
+
+/-- **The re-collected effect lists are the ones `TS.step` interprets.** For every state and
+    label: the bag after the step is the bag before minus the element delivered / dropped (if
+    any) plus exactly the forwards of `effsA` (the writer's: these are the step's `wire`
+    entries) then of `effsB` (the reader's), in order; the completion log grows by exactly the
+    completions of `effs`. -/
+theorem C19_stream_effects_are_the_steps (c : TcpCfg) (s : CS) (l : TLbl) :
+    ∃ b0, (b0 = s.ts.bag ∨ ∃ i, b0 = s.ts.bag.eraseIdx i)
+      ∧ (s.step c l).ts.bag = b0 ++ ((s.step c l).wire.drop s.wire.length).map (·.2) ++ s5_fwdsOf (s.ts.effsB c l)
+      ∧ (s.step c l).ts.posts = s.ts.posts ++ postsOf (s.ts.effs c l)
+      ∧ (s.step c l).log = s.log ++ capsTcp (s.ts.effs c l)
+      ∧ capsTcp (s.ts.effsB c l) = [] := by
+  obtain ⟨b0, h0, h1, h2⟩ := TS.step_emits c s.ts l
+  refine ⟨b0, h0, ?_, h2, rfl, (TS.noCap_effsB c s.ts l).1⟩
+  show (s.ts.step c l).bag = b0 ++ ((s.wire ++ _).drop s.wire.length).map (·.2) ++ _
+  rw [List.drop_left, List.map_map, h1, TS.effs, s5_fwdsOf_append, List.append_assoc]
+  congr 2
+  simp [Function.comp_def]
+
+/-- **(a) One record per packet the writer puts on the wire, in the same order —
+    retransmissions and the closing segment included —, with the right fields.** Over every
+    history: with capture on, the capture log is the wire log mapped record by record:
+    `t` = the time of the step that sent the packet, `src` = the writer's bound endpoint,
+    `dst` = the peer's endpoint in the channel (real, not NAT-visible), `seq` = the byte counter
+    the packet was stamped with (`bc`), `payload` = the packet's payload. With capture off the
+    log is empty (and the wire log — hence the bag — is what it is with capture on: the switch
+    is not an input of anything but the record, `C19_tcp_send_packet`). -/
+theorem C19_stream_one_record_per_packet (c : TcpCfg) (n : NetSt) (hne : c.a ≠ c.b) (k : CapKey)
+    (hk : ConnAt n c.a k.cid k.idx k.src k.dst k.init) (hp : n.cfg.pcap = k.pcap) (ls : List TLbl) :
+    (CS.run c (CS.init c n) ls).log =
+      if k.pcap then (CS.run c (CS.init c n) ls).wire.map
+        (fun e => ({ t := e.1, src := k.src, dst := k.dst, seq := e.2.bc, payload := e.2.payload } : CapT))
+      else [] :=
+  (CS.capOk_run c hne k ls _ (capOk_init c n k hk hp)).log
+
+/-- **(b) Sequence numbers.** Over every history: every packet on the wire is stamped with the
+    value the direction's byte counter had when it was sent (`WireSeq`), so record `i`'s
+    sequence number is the start value plus the payload bytes of ALL records before it in that
+    direction, modulo 2^32. Retransmitted bytes count again, as in the C++ (`bytes_sent[idx] +=
+    size` runs in `send_packet` for every transmission): a retransmission carries a new, larger
+    number, not the one of the first transmission. -/
+theorem C19_stream_seq_general (c : TcpCfg) (n : NetSt) (hne : c.a ≠ c.b) (k : CapKey)
+    (hk : ConnAt n c.a k.cid k.idx k.src k.dst k.init) (hp : n.cfg.pcap = k.pcap) (hpc : k.pcap = true)
+    (hinit : k.init < 4294967296) (ls : List TLbl)
+    (i : Nat) (hi : i < (CS.run c (CS.init c n) ls).log.length) :
+    (CS.run c (CS.init c n) ls).log[i].seq =
+      (k.init + (((CS.run c (CS.init c n) ls).log.take i).map (fun r => r.payload.length)).sum) % 4294967296 := by
+  have hI := CS.capOk_run c hne k ls _ (capOk_init c n k hk hp)
+  have hs : CapSeq k.init (CS.run c (CS.init c n) ls).log := by
+    rw [hI.log, hpc]; exact capSeq_of_wireSeq k _ _ hI.seq
+  exact capSeq_getElem k.init hinit _ hs i hi
+
+/-- **(b), repaired tree**: counters start at 0, so the first record of the direction has
+    sequence number 0 and record `i` the payload bytes previously transmitted, mod 2^32. -/
+theorem C19_stream_seq (c : TcpCfg) (n : NetSt) (hne : c.a ≠ c.b) (k : CapKey)
+    (hk : ConnAt n c.a k.cid k.idx k.src k.dst k.init) (hp : n.cfg.pcap = k.pcap) (hpc : k.pcap = true)
+    (hinit : k.init = 0) (ls : List TLbl)
+    (i : Nat) (hi : i < (CS.run c (CS.init c n) ls).log.length) :
+    (CS.run c (CS.init c n) ls).log[i].seq =
+      ((((CS.run c (CS.init c n) ls).log.take i).map (fun r => r.payload.length)).sum) % 4294967296 := by
+  have := C19_stream_seq_general c n hne k hk hp hpc (by omega) ls i hi
+  rw [this, hinit, Nat.zero_add]
+
+/-- … and the packets themselves carry the same numbers (`bc`, the model's `p.byte_counter`). -/
+theorem C19_stream_packets_stamped (c : TcpCfg) (n : NetSt) (hne : c.a ≠ c.b) (k : CapKey)
+    (hk : ConnAt n c.a k.cid k.idx k.src k.dst k.init) (hp : n.cfg.pcap = k.pcap) (ls : List TLbl) :
+    WireSeq k.init (CS.run c (CS.init c n) ls).wire :=
+  (CS.capOk_run c hne k ls _ (capOk_init c n k hk hp)).seq
+
+/-- **(c) Payload.** From a start state of the stream theorems (`TcpStart`: nothing sent or
+    received yet on the connection): every packet the writer ever put on the wire is a segment
+    carrying exactly `segs[id]` — the bytes the ghost log of C05 holds for its sequence number,
+    first transmission or retransmission — or the empty end-of-stream marker; by (a) the
+    record's payload is that packet's payload. -/
+theorem C19_stream_payload_genuine (c : TcpCfg) (n : NetSt) (h : TcpStart c n) (ls : List TLbl) :
+    ∀ e ∈ (CS.run c (CS.init c n) ls).wire,
+      (e.2.ty = .payload ∧ (TS.run c (TS.init c n) ls).segs[e.2.id]? = some e.2.payload)
+      ∨ (e.2.ty = .err ∧ e.2.payload = []) := by
+  have := CS.genuine_run c ls (CS.init c n) (TInv.init h) (by intro e he; cases he)
+  rw [CS.init_run_ts] at this
+  exact this
+
+/-- … hence no record is larger than the writer's segment size -/
+theorem C19_stream_payload_bound (c : TcpCfg) (n : NetSt) (h : TcpStart c n) (ls : List TLbl)
+    (hm : 0 < (TS.init c n).mss0) :
+    ∀ e ∈ (CS.run c (CS.init c n) ls).wire, e.2.payload.length ≤ (TS.init c n).mss0 := by
+  intro e he
+  have hI := (TInv.reach h ls).core
+  have hm0 : (TS.run c (TS.init c n) ls).mss0 = (TS.init c n).mss0 := TS.run_mss0 c ls _
+  rcases C19_stream_payload_genuine c n h ls e he with ⟨_, h2⟩ | ⟨_, h2⟩
+  · have hmem : e.2.payload ∈ (TS.run c (TS.init c n) ls).segs := List.mem_of_getElem? h2
+    have := (hI.segsB (by rw [hm0]; exact hm) _ hmem).2
+    rw [hm0] at this; exact this
+  · rw [h2]; simp
+
+/-- **Composition with the round trip.** The capture file the world driver writes for the log
+    (header, then `Pcap.recordTcp` of every record in emission order; `ip` = the driver's
+    dotted-quad parser, any function here) is decoded by the independent reader to exactly the
+    expected records (`Pcap.expected`, whose sequence numbers are recomputed from the payload
+    lengths alone) of the list of sends read off the history: one TCP send per packet the writer
+    put on the wire, at the step's time, from the writer's endpoint to the peer's, with the
+    packet's payload — for every history, every initial counter value `k.init` (0 = repaired
+    tree), every labelling `(conn, dir)` of the direction. Hence all corollaries of
+    `C19_wellformed` (`C19_one_record_per_send`, `C19_lengths`, `C19_addresses_ports`,
+    `C19_payload`, `C19_timestamps`, `C19_time_monotone`, `C19_seq_general`) hold of the decoded
+    file with `sends` := these. -/
+theorem C19_stream_file (c : TcpCfg) (n : NetSt) (hne : c.a ≠ c.b) (k : CapKey)
+    (hk : ConnAt n c.a k.cid k.idx k.src k.dst k.init) (hp : n.cfg.pcap = k.pcap) (hpc : k.pcap = true)
+    (ls : List TLbl) (ip : String → Nat) (conn dir : Nat)
+    (hsrc : ip k.src.addr < 4294967296) (hdst : ip k.dst.addr < 4294967296)
+    (hsp : k.src.port < 65536) (hdp : k.dst.port < 65536)
+    (hsz : ∀ e ∈ (CS.run c (CS.init c n) ls).wire, e.2.payload.length + 40 ≤ 65535) :
+    PcapDecode.decodeFile (capFile ip (CS.run c (CS.init c n) ls).log) =
+      some (Pcap.expected (fun _ => k.init)
+        ((CS.run c (CS.init c n) ls).wire.map (fun e =>
+          ({ kind := .tcp, t := e.1.toNat, srcIp := ip k.src.addr, dstIp := ip k.dst.addr,
+             srcPort := k.src.port, dstPort := k.dst.port, conn := conn, dir := dir,
+             payload := e.2.payload } : Pcap.Send)))) := by
+  have hI := CS.capOk_run c hne k ls _ (capOk_init c n k hk hp)
+  have hlog := hI.log
+  rw [hpc] at hlog
+  simp only [if_true] at hlog
+  have hs : CapSeq k.init (CS.run c (CS.init c n) ls).log := by
+    rw [hlog]; exact capSeq_of_wireSeq k _ _ hI.seq
+  rw [capFile_eq_capture ip conn dir _ k.init hs, hlog, List.map_map]
+  apply Pcap.C19_wellformed
+  intro s hs
+  rw [List.mem_map] at hs
+  obtain ⟨e, he, rfl⟩ := hs
+  exact ⟨hsrc, hdst, hsp, hdp, fun _ => by have := hsz e he; simp [CapT.toSend, recOf]; omega,
+    fun hk => by simp [CapT.toSend] at hk⟩
+
+/-- **As-is (pinned tree, F1).** `channel::bytes_sent` was uninitialised: the direction starts
+    with whatever the allocator left (`k.init` arbitrary). The same theorems hold with that start
+    value — the first record's sequence number is `k.init`, not 0 (`C19_stream_seq_general` at
+    `i = 0`); with ASan's fill pattern: -/
+theorem C19_stream_asis_first_seq (c : TcpCfg) (n : NetSt) (hne : c.a ≠ c.b) (k : CapKey)
+    (hk : ConnAt n c.a k.cid k.idx k.src k.dst k.init) (hp : n.cfg.pcap = k.pcap) (hpc : k.pcap = true)
+    (hinit : k.init = 0xbebebebe) (ls : List TLbl) (h0 : 0 < (CS.run c (CS.init c n) ls).log.length) :
+    (CS.run c (CS.init c n) ls).log[0].seq = 0xbebebebe := by
+  have := C19_stream_seq_general c n hne k hk hp hpc (by omega) ls 0 h0
+  rw [this, hinit]; simp
+
+/-! ## Non-vacuity: the history of SimVerif/TcpEx.lean with capture on
+
+  Segment 0 `[1,2,3]` is sent and dropped by the first hop, segment 1 `[4]` is sent, the ACK of
+  segment 1 triggers the retransmission of segment 0, the writer closes. Step `i` of the
+  history happens at 1 s + i · 1.5 ms. -/
+namespace C19Ex
+
+def cfg : NetCfg := { mtu := [("*", 3)], pcap := true }
+def epA : Ep := { addr := "10.0.0.1", port := 2000 }
+def epB : Ep := { addr := "10.0.0.2", port := 80 }
+def n0 : NetSt := established cfg TcpEx.c epA epB ["q1"] ["q2"]
+def key : CapKey := { cid := 0, idx := 0, src := epA, dst := epB, init := 0, pcap := true }
+def hist : List TLbl := TcpEx.hist.zipIdx.map (fun x => x.1.atTime (1000000000 + x.2 * 1500000))
+def final : CS := CS.run TcpEx.c (CS.init TcpEx.c n0) hist
+def ip (a : String) : Nat := if a = "10.0.0.1" then 0x0a000001 else 0x0a000002
+
+theorem start : ConnAt n0 TcpEx.c.a key.cid key.idx key.src key.dst key.init :=
+  connAt_of_check _ _ _ _ _ _ _ (by decide)
+
+/-- the capture log: first transmissions at sequence numbers 0 and 3, the retransmission of
+    `[1,2,3]` at 4 (its bytes count again), the closing segment at 7 with no payload -/
+example : final.log =
+    [ { t := 1001500000, src := epA, dst := epB, seq := 0, payload := [1, 2, 3] },
+      { t := 1004500000, src := epA, dst := epB, seq := 3, payload := [4] },
+      { t := 1010500000, src := epA, dst := epB, seq := 4, payload := [1, 2, 3] },
+      { t := 1021000000, src := epA, dst := epB, seq := 7, payload := [] } ] := by decide
+
+/-- the packets the writer put into the bag: sequence numbers 0, 1, 0 (retransmission), 2 (EOF) -/
+example : final.wire.map (fun e => (e.1, e.2.id, e.2.ty, e.2.bc, e.2.payload)) =
+    [ (1001500000, 0, .payload, 0, [1, 2, 3]), (1004500000, 1, .payload, 3, [4]),
+      (1010500000, 0, .payload, 4, [1, 2, 3]), (1021000000, 2, .err, 7, []) ]
+    ∧ final.ts.segs = [[1, 2, 3], [4]] := by decide
+
+/-- with capture off: same packets, no record -/
+example : (CS.run TcpEx.c (CS.init TcpEx.c (established { mtu := [("*", 3)] } TcpEx.c epA epB ["q1"] ["q2"])) hist).log = []
+    ∧ (CS.run TcpEx.c (CS.init TcpEx.c (established { mtu := [("*", 3)] } TcpEx.c epA epB ["q1"] ["q2"])) hist).wire
+        = final.wire := by decide
+
+/-- the hypotheses of the system-level theorems hold of this history; the theorems instantiated -/
+example := C19_stream_one_record_per_packet TcpEx.c n0 (by decide) key start rfl hist
+example := C19_stream_seq TcpEx.c n0 (by decide) key start rfl rfl rfl hist 2 (by decide)
+example := C19_stream_payload_genuine TcpEx.c n0 (established_start _ _ _ _ _ _ (by decide)).1 hist
+example := C19_stream_file TcpEx.c n0 (by decide) key start rfl rfl hist ip 0 0
+  (by decide) (by decide) (by decide) (by decide) (by decide)
+
+-- the capture file of the log, read back by the independent decoder
+set_option maxRecDepth 100000 in
+example : PcapDecode.decodeFile (capFile ip final.log) = some
+    [ { tsSec := 441794305, tsUsec := 1500, inclLen := 43, origLen := 43,
+        pkt := { verIhl := 0x45, ipLen := 43, ttl := 200, proto := 6, src := 0x0a000001,
+                 dst := 0x0a000002, sport := 2000, dport := 80, seq := 0, udpLen := 0,
+                 payload := [1, 2, 3] } },
+      { tsSec := 441794305, tsUsec := 4500, inclLen := 41, origLen := 41,
+        pkt := { verIhl := 0x45, ipLen := 41, ttl := 200, proto := 6, src := 0x0a000001,
+                 dst := 0x0a000002, sport := 2000, dport := 80, seq := 3, udpLen := 0,
+                 payload := [4] } },
+      { tsSec := 441794305, tsUsec := 10500, inclLen := 43, origLen := 43,
+        pkt := { verIhl := 0x45, ipLen := 43, ttl := 200, proto := 6, src := 0x0a000001,
+                 dst := 0x0a000002, sport := 2000, dport := 80, seq := 4, udpLen := 0,
+                 payload := [1, 2, 3] } },
+      { tsSec := 441794305, tsUsec := 21000, inclLen := 40, origLen := 40,
+        pkt := { verIhl := 0x45, ipLen := 40, ttl := 200, proto := 6, src := 0x0a000001,
+                 dst := 0x0a000002, sport := 2000, dport := 80, seq := 7, udpLen := 0,
+                 payload := [] } } ] := by decide
+
+/-- UDP: a bound sender, a bound receiver: one record right before the one datagram -/
+def nU : NetSt :=
+  { cfg := { pcap := true }, reg := { udp := [({ addr := "10.0.0.2", port := 5000 }, "b")] }, fwds := [some "b"],
+    udps := [("a", { node := "A", isOpen := true, bound := { addr := "10.0.0.1", port := 4000 } }),
+             ("b", { node := "B", isOpen := true, bound := { addr := "10.0.0.2", port := 5000 }, fwd := some 0 })] }
+
+example :
+    capsUdp (nU.udpSendTo 7000 "a" { addr := "10.0.0.2", port := 5000 } [9, 8]).2.1
+      = [{ t := 7000, src := { addr := "10.0.0.1", port := 4000 }, dst := { addr := "10.0.0.2", port := 5000 }, payload := [9, 8] }]
+    ∧ (fwdsOf (nU.udpSendTo 7000 "a" { addr := "10.0.0.2", port := 5000 } [9, 8]).2.1).map
+        (fun p => (p.ty, p.src, p.hops, p.payload)) = [(.payload, "10.0.0.1:4000", ["@0"], [9, 8])]
+    ∧ (nU.udpSendTo 7000 "a" { addr := "10.0.0.2", port := 5000 } [9, 8]).2.1.length = 3
+    -- empty datagram / nothing bound at the destination: no packet, no record
+    ∧ capsUdp (nU.udpSendTo 7000 "a" { addr := "10.0.0.2", port := 5000 } []).2.1 = []
+    ∧ (fwdsOf (nU.udpSendTo 7000 "a" { addr := "10.0.0.2", port := 5000 } []).2.1).length = 0
+    ∧ capsUdp (nU.udpSendTo 7000 "a" { addr := "10.0.0.9", port := 1 } [9, 8]).2.1 = []
+    ∧ (fwdsOf (nU.udpSendTo 7000 "a" { addr := "10.0.0.9", port := 1 } [9, 8]).2.1).length = 0 := by
+  decide
+
+end C19Ex
+
+end SimVerif
